@@ -152,7 +152,7 @@ func (u *cdpU) snapAt(ctx sdk.Context) *cdpSnap {
 	}
 	rd := func(label string, addr sdk.AccAddress) {
 		m := map[string]*big.Int{}
-		for _, d := range cdpDenoms {
+		for _, d := range u.denomList() {
 			m[d] = a.BankKeeper.GetBalance(ctx, addr, d).Amount.BigInt()
 		}
 		s.Bal[label] = m
@@ -163,7 +163,7 @@ func (u *cdpU) snapAt(ctx sdk.Context) *cdpSnap {
 	for _, m := range cdpModules {
 		rd(modLabel(m), c.ModAddr(m))
 	}
-	for _, d := range cdpDenoms {
+	for _, d := range u.denomList() {
 		s.Supply[d] = a.BankKeeper.GetSupply(ctx, d).Amount.BigInt()
 	}
 	for _, as := range u.assets {
@@ -218,4 +218,12 @@ func (e *cdpEvent) String() string {
 
 type cdpMonitor interface {
 	Observe(pre, post *cdpSnap, e *cdpEvent)
+}
+
+// denomList: the denoms whose balances are snapshotted (the CDP universe's by default).
+func (u *cdpU) denomList() []string {
+	if u.denoms != nil {
+		return u.denoms
+	}
+	return cdpDenoms
 }
